@@ -362,6 +362,12 @@ impl FixtureDatabase {
                                 if self.file_cache.contains_key(&canonical) {
                                     reanalyze_as_plugin.insert(canonical.clone());
                                 }
+                                // If it was already visited as a non-plugin file (reached
+                                // first through an ordinary conftest), visit it again so
+                                // the modules it imports inherit the plugin status too.
+                                if processed_files.remove(&canonical) {
+                                    cached_modules.insert(canonical.clone());
+                                }
                             }
 
                             if !processed_files.contains(&canonical) {
@@ -396,6 +402,12 @@ impl FixtureDatabase {
                                 // existing definitions get is_plugin=true.
                                 if self.file_cache.contains_key(&canonical) {
                                     reanalyze_as_plugin.insert(canonical.clone());
+                                }
+                                // If it was already visited as a non-plugin file (reached
+                                // first through an ordinary conftest), visit it again so
+                                // the modules it imports inherit the plugin status too.
+                                if processed_files.remove(&canonical) {
+                                    cached_modules.insert(canonical.clone());
                                 }
                             }
 
